@@ -130,6 +130,12 @@ def impl_main(payload):
                         # a fresh object per offer unless the tag was offered before in this same call
                         ob = objs[t]
                         if any(ob is q for q in pop):
+                            same_keys = (enc(ob.fitness), enc(ob.k2)) == (enc(fl(k1)), enc(fl(k2)))
+                            if same_keys:
+                                # the very same object listed twice in one population ([a, b, a]): two independent copies
+                                pop.append(ob)
+                                offers.append((t, ob.fitness, ob.k2, ob.stamp))
+                                continue
                             ob = Ind(t)
                         ob.fitness, ob.k2, ob.stamp = fl(k1), fl(k2), stamp
                         stamp += 1
@@ -174,6 +180,8 @@ def impl_main(payload):
                 viol.append("keys and items out of step (or a copy followed its original)")
             if any(any(it is ob for ob in offered_objs) for it in items):
                 viol.append("resident is the offered object itself, not a copy")
+            if len({id(it) for it in items}) != len(items):
+                viol.append("two slots hold the same object: residents are not independent copies of each other")
             for i in range(len(items) - 1):
                 if keys[i] == keys[i + 1] and items[i].stamp > items[i + 1].stamp:
                     viol.append("equal keys not in arrival order")
